@@ -157,6 +157,7 @@ void run_case(Ctx& c) {
                 fetch_sent.push_back({now, tok});
                 if (in_window(fetch_sent, now) >= 13) c.nt("thirteen_fetches_in_window");
                 auto resp = server.roundtrip(q);
+                if (!resp.ok && server.timed_out()) { c.label("control_timeout_inconclusive"); server.stop(); return; }
                 if (!resp.ok) c.fail("C28:harness-error", "no response to FETCH");
                 const std::string code = resp.field("CODE");
                 if (resp.field("STATUS") == "OK") {
@@ -302,6 +303,7 @@ void run_case(Ctx& c) {
         if (!resp.ok) {
             if (over_cap_no_body) c.fail("C28:over-cap-length-not-refused-before-body", "PAYLOAD-LENGTH " + len_text + " with cap " + std::to_string(cap) + ": no answer while the body is withheld");
             // (a refusal that leaves the unread body behind may reset the connection before the answer is read)
+            if (!reset_possible && server.timed_out() && !over_cap_no_body) { c.label("control_timeout_inconclusive"); server.stop(); return; }
             if (!reset_possible) c.fail("C28:harness-error", "no response to STORE");
         }
         const std::string status = resp.field("STATUS"), code = resp.field("CODE");
